@@ -103,6 +103,17 @@ def _const_dtype(e: ast.AST) -> Optional[Tuple[str, object]]:
     return None
 
 
+def _const_bool_seq(d: ast.AST) -> bool:
+    """[True] * n / (False,) * n / [True, False] ..."""
+    if isinstance(d, ast.BinOp) and isinstance(d.op, ast.Mult):
+        return _const_bool_seq(d.left) or _const_bool_seq(d.right)
+    if isinstance(d, (ast.List, ast.Tuple)):
+        return all(isinstance(e, ast.Constant) and isinstance(e.value, bool) for e in d.elts)
+    if isinstance(d, ast.Call) and short(d.func) in ("tuple", "list") and len(d.args) == 1:
+        return _const_bool_seq(d.args[0])
+    return False
+
+
 def _data_defs(res: Resolver, site: Site) -> List[object]:
     if site.data is None:
         return []
@@ -205,6 +216,8 @@ def _admissible(ctx, res: Resolver, s: Site, dt, datas) -> Tuple[Optional[bool],
         K, nn = cd
         comps = [comp_of(d) for d in datas if not isinstance(d, str)]
         if K == "bool" and nn is False:
+            if datas and all(_const_bool_seq(d) for d in datas if not isinstance(d, str)) and not any(isinstance(d, str) for d in datas):
+                return (True, "CONST(bool) over constant booleans")
             if datas and all(c is not None for c in comps):
                 bad = [c for c in comps if not is_bool_expr(c.elt)]
                 if bad:
@@ -254,11 +267,28 @@ def _admissible(ctx, res: Resolver, s: Site, dt, datas) -> Tuple[Optional[bool],
                     return (False, f"dtype is {obj}'s made non-nullable, but the data `{short(d, 60) if not isinstance(d, str) else d}` "
                                    f"are not {obj}'s elements filtered by `is not None`")
             return (True, f"OF({obj}).with_nullable(False) over {obj}'s not-None elements")
+        base = dt.func.value
+        bdefs = res.resolve(base, s.call) if isinstance(base, ast.Name) else [base]
+        objs = {_is_of(b) for b in bdefs if not isinstance(b, str)}
+        if len(objs) == 1 and None not in objs:
+            o = next(iter(objs))
+            for d in datas:
+                if isinstance(d, str):
+                    continue
+                root = d
+                while isinstance(root, (ast.Subscript, ast.Attribute)):
+                    root = root.value
+                se = same_elements_of(d)
+                if not (se and se[0] == o) and isinstance(root, ast.Name) and root.id != "self" and root.id not in f.params:
+                    return (False, f"`{short(d, 60)}` (a locally built buffer, not {o}'s own elements) is labelled with {o}'s kind and a "
+                                   f"computed nullability instead of being re-inferred: padding or gathered values need not fit it")
         return (None, "with_nullable with a computed flag")
     # ---- OF(obj)
     obj = _is_of(dt)
     if obj:
         for d in datas:
+            if isinstance(d, (ast.Tuple, ast.List)) and not d.elts:
+                continue           # no elements: every dtype is truthful
             if isinstance(d, str):
                 if f.qualname == "vector.Vector.copy":
                     continue       # copy(new_values): checked at every caller (a.copy-callers)
@@ -271,9 +301,8 @@ def _admissible(ctx, res: Resolver, s: Site, dt, datas) -> Tuple[Optional[bool],
                 a = same_elements_of(d.args[0].body)
                 if a and a[0] == obj and isinstance(d.args[0].orelse, ast.Name):
                     continue       # list(self._underlying if new_values is None else new_values)
-            if f.qualname == "vector.Vector.copy" and isinstance(d, ast.Call) and short(d.func) == "list" and d.args \
-                    and isinstance(d.args[0], ast.BoolOp):
-                continue           # list(new_values or self._underlying): same sources (the truthiness slip is C07's rule)
+            if f.qualname == "vector.Vector.copy" and _copy_sources_only(d, obj, f, res, s.call):
+                continue           # new_values / self._underlying selected by or / if-else / list(): same sources (truthiness is C07's rule)
             if isinstance(d, (ast.List,)) and not d.elts or (isinstance(d, ast.Call) and short(d.func) == "list" and not d.args):
                 # a buffer filled by append(): what is appended?
                 nm = s.data.id if isinstance(s.data, ast.Name) else None
@@ -302,6 +331,29 @@ def _admissible(ctx, res: Resolver, s: Site, dt, datas) -> Tuple[Optional[bool],
             return (None, f"data `{short(d, 50)}` under {obj}'s dtype not classified")
         return (True, f"OF({obj}) over {obj}'s own elements")
     return (None, "dtype expression not recognised")
+
+
+def _copy_sources_only(d, obj: str, f: FuncInfo, res=None, at=None, depth: int = 0) -> bool:
+    """Is the data of Vector.copy built only from its `new_values` parameter and obj's own storage?"""
+    if isinstance(d, str):
+        return True                     # the parameter itself
+    if depth > 5:
+        return False
+    if isinstance(d, ast.Call) and short(d.func) in ("list", "tuple") and len(d.args) == 1:
+        return _copy_sources_only(d.args[0], obj, f, res, at, depth + 1)
+    if isinstance(d, ast.BoolOp):
+        return all(_copy_sources_only(v, obj, f, res, at, depth + 1) for v in d.values)
+    if isinstance(d, ast.IfExp):
+        return _copy_sources_only(d.body, obj, f, res, at, depth + 1) and _copy_sources_only(d.orelse, obj, f, res, at, depth + 1)
+    if isinstance(d, ast.Name):
+        if d.id in f.params:
+            return True
+        if res is not None and at is not None:
+            defs = [x for x in res.resolve(d, at) if x is not d]
+            return bool(defs) and all(_copy_sources_only(x, obj, f, res, at, depth + 1) for x in defs)
+        return False
+    se = same_elements_of(d)
+    return bool(se and se[0] == obj)
 
 
 def _copy_site(ctx, res: Resolver, s: Site) -> None:
